@@ -300,6 +300,25 @@ fn check_g(seed: u64, idx: u64, rep: &mut Report) {
     let Ok(base_mods) = proj::project(generated) else { return };
     rep.nontrivial.insert(hash_of(&set));
     conservation(&base, Some(&base_mods), Some(&set), &origin, &vk, rep);
+    // ---- definitions the generator never spells: two names that mangle to the same Rust identifier (types and values),
+    // and a value governed by a fixed-type class field; every one of them must still be emitted or warned about
+    if idx % 3 == 0 {
+        let mut extra = set.clone();
+        let raw = |name: &str, text: &str| Assign::Raw { name: name.to_string(), tokens: text.split(' ').map(String::from).collect() };
+        let m0 = &mut extra.modules[0].assigns;
+        m0.push(raw("Speed-Limit", "Speed-Limit ::= INTEGER ( 0 .. 300 )"));
+        m0.push(raw("SpeedLimit", "SpeedLimit ::= BOOLEAN"));
+        m0.push(raw("max-retries", "max-retries INTEGER ::= 3"));
+        m0.push(raw("maxRetries", "maxRetries INTEGER ::= 4"));
+        m0.push(raw("CLSX9", "CLSX9 ::= CLASS { &id INTEGER UNIQUE } WITH SYNTAX { ID &id }"));
+        m0.push(raw("vcf9", "vcf9 CLSX9.&id ::= 5"));
+        let run = comp::rasn(&[extra.render().text], &cfg);
+        rep.evaluations += 1;
+        rep.count(&format!("extra_definition_compilations[{}]", run.out.status()), 1);
+        if matches!(run.out, comp::Outcome::Ok { .. }) {
+            conservation(&run, None, Some(&extra), &format!("{origin}+homonyms-after-mangling+class-field-value"), &vk, rep);
+        }
+    }
     // ---- the TypeScript backend: same accounting on its own hook log (H1 + H5 of that backend), on the input as it is and
     // with one parseable-but-unsupported definition appended
     {
